@@ -1558,6 +1558,9 @@ class Interp:
         if isinstance(v, PropertyVal):
             return self._bind_class_attr(v, o, o.cls, ctx)
         if name in o.fields:
+            rl = getattr(ctx, "read_log", None)
+            if rl is not None:
+                rl.append((o.ident, name))
             return o.fields[name]
         if v is not None or owner is not None:
             return self._bind_class_attr(v, o, o.cls, ctx)
